@@ -72,6 +72,24 @@ Theorem C13_marker_outside_prefix_resumes : forall pre delim km vm mk objs,
 Proof. exact vpage_marker_unlisted. Qed.
 Print Assumptions C13_marker_outside_prefix_resumes.
 
+(* a truncated page holds at least one entry and its markers name the last entry it holds: a page
+   that says "truncated" always says where to go on from *)
+Theorem C13_truncated_page_names_its_last_entry : forall pre delim km vm mk objs,
+  1 <= mk -> vl_truncated (vpage pre delim mk objs km vm) = true ->
+  exists l e, vl_entries (vpage pre delim mk objs km vm) = l ++ [e] /\
+    vl_next_key (vpage pre delim mk objs km vm) = ve_key e /\
+    vl_next_vid (vpage pre delim mk objs km vm) = ve_vid e.
+Proof. exact vpage_truncated_names_last. Qed.
+Print Assumptions C13_truncated_page_names_its_last_entry.
+
+(* a key marker behind the last key (made up, or handed out before the keys behind it were removed):
+   the page is empty and final *)
+Theorem C13_marker_behind_every_key_ends_the_walk : forall pre delim km vm mk objs,
+  km <> [] -> (forall kv, In kv objs -> bltb (fst kv) km = true) ->
+  vl_entries (vpage pre delim mk objs km vm) = [] /\ (vl_truncated (vpage pre delim mk objs km vm) = false).
+Proof. exact vpage_marker_behind_every_key. Qed.
+Print Assumptions C13_marker_behind_every_key_ends_the_walk.
+
 (* non-vacuity: two versions and a delete marker of one key, paged one entry at a time *)
 Definition c13_v (id : N) (mk : bool) : vdata := {| vd_vid := id; vd_null := false; vd_marker := mk; vd_body := [id]; vd_meta := [] |}.
 Definition c13_objs : list (list N * obj) := [([107]%N, {| o_data := Some (c13_v 3 true); o_vers := [c13_v 1 false; c13_v 2 false] |})].
@@ -84,4 +102,9 @@ Definition c13_objs2 : list (list N * obj) :=
   [([97]%N, {| o_data := Some (c13_v 1 false); o_vers := [] |}); ([107]%N, {| o_data := Some (c13_v 3 true); o_vers := [c13_v 2 false] |})].
 Example C13_ex_marker_outside_prefix :
   map ve_vid (vl_entries (vpage [107]%N None 5 c13_objs2 [97]%N (Some 1%N))) = [2%N; 3%N].
+Proof. vm_compute. reflexivity. Qed.
+
+(* a marker behind the only key: nothing, and not truncated *)
+Example C13_ex_marker_behind_last_key :
+  let r := vpage [] None 1 c13_objs [122; 122]%N None in (vl_entries r, vl_truncated r) = ([], false).
 Proof. vm_compute. reflexivity. Qed.
